@@ -117,7 +117,56 @@ func c11RespRun(r *Responder, c c11RespCase) (classes []string, nontrivial bool,
 	if called {
 		classes = append(classes, "callback-called")
 	}
+	if oc := c11OptClass(c.Data); oc != "" {
+		classes = append(classes, oc)
+		if oc == "edns:options-wellformed" && o.Panic == nil && stage == "answered-payload" {
+			classes = append(classes, "edns:options-wellformed+answered-payload")
+		}
+	}
 	return classes, len(c.Data) >= 12, o
+}
+
+// c11OptClass says what the RDATA of the OPT record the responder negotiates on (the first one in the
+// additional section of whatever the parser returned, if it announces EDNS version 0) looks like
+// when read as the RFC 6891 section 6.1.2 sequence of {OPTION-CODE, OPTION-LENGTH, OPTION-DATA}.
+// It only labels the input (for rec.Require); it takes no part in the verdict.
+func c11OptClass(datagram []byte) (class string) {
+	defer func() {
+		if recover() != nil {
+			class = ""
+		}
+	}()
+	query, _ := dns.MessageFromWireFormat(append([]byte(nil), datagram...))
+	if query.Flags&0x8000 != 0 {
+		return ""
+	}
+	for _, rr := range query.Additional {
+		if rr.Type != dns.RRTypeOPT {
+			continue
+		}
+		if (rr.TTL>>16)&0xff != 0 {
+			return ""
+		}
+		opts := rr.Data
+		if len(opts) == 0 {
+			return "edns:no-options"
+		}
+		for len(opts) > 0 {
+			if len(opts) < 4 {
+				return "edns:option-header-cut"
+			}
+			end := 4 + int(opts[2])<<8 + int(opts[3])
+			switch {
+			case end > len(opts)+4:
+				return "edns:option-overruns-by-more"
+			case end > len(opts):
+				return "edns:option-overruns-by-1..4"
+			}
+			opts = opts[end:]
+		}
+		return "edns:options-wellformed"
+	}
+	return ""
 }
 
 func c11RespCheck(t vh.Fataler, rec *vh.Rec, r *Responder, c c11RespCase, fuzz bool) {
@@ -133,18 +182,7 @@ func c11RespCheck(t vh.Fataler, rec *vh.Rec, r *Responder, c c11RespCase, fuzz b
 // DNSPacketConn.send do): Noise handshake message, one-byte length prefix, base32, labels, TXT query
 // with an EDNS(0) OPT record.
 func c11Query(payload []byte, domain dns.Name, id uint16) ([]byte, error) {
-	cfg := encryption.NewConfig()
-	cfg.Initiator = true
-	cfg.PeerStatic = encryption.PubkeyFromPrivkey(c11Priv)
-	hs, err := noise.NewHandshakeState(cfg)
-	if err != nil {
-		return nil, err
-	}
-	msg, _, _, err := hs.WriteMessage(nil, payload)
-	if err != nil {
-		return nil, err
-	}
-	framed, err := msgformat.AddRequestFormat(msg)
+	framed, err := c11Framed(payload)
 	if err != nil {
 		return nil, err
 	}
@@ -168,20 +206,67 @@ func c11Labels(p []byte) [][]byte {
 }
 
 func c11QueryRaw(framed []byte, domain dns.Name, id uint16) ([]byte, error) {
+	return c11QueryOpt(framed, domain, id, 4096, 0, []byte{})
+}
+
+// c11QueryOpt is c11QueryRaw with the OPT record's fields chosen by the caller: what a recursive
+// resolver between client and registrar (or an attacker) makes of the client's empty OPT record.
+func c11QueryOpt(framed []byte, domain dns.Name, id uint16, size uint16, ttl uint32, rdata []byte) ([]byte, error) {
 	name, err := dns.NewName(append(c11Labels(framed), domain...))
 	if err != nil {
 		return nil, err
 	}
 	q := &dns.Message{ID: id, Flags: 0x0100, Question: []dns.Question{{Name: name, Type: dns.RRTypeTXT, Class: dns.ClassIN}},
-		Additional: []dns.RR{{Name: dns.Name{}, Type: dns.RRTypeOPT, Class: 4096, TTL: 0, Data: []byte{}}}}
+		Additional: []dns.RR{{Name: dns.Name{}, Type: dns.RRTypeOPT, Class: size, TTL: ttl, Data: rdata}}}
 	return q.WireFormat()
 }
 
-const c11RespRule = "the responder's per-datagram path (parse -> responseFor -> unframe -> Noise handshake -> callback -> frame -> TXT answer -> size fallback) on: genuine encrypted queries for payloads of 0-90 bytes (intact, with DNS-level edits, with a corrupted Noise message or length prefix, for a foreign domain), datagrams assembled from hostile parts as in the dnsmsg sub-check (around a genuine or a garbage payload name), hostile constants; callback answers with 0..3000 bytes or an error; non-trivial = a datagram of at least a DNS header; distinct by case"
+// c11Framed is the framed Noise handshake message a genuine client sends for payload.
+func c11Framed(payload []byte) ([]byte, error) {
+	cfg := encryption.NewConfig()
+	cfg.Initiator = true
+	cfg.PeerStatic = encryption.PubkeyFromPrivkey(c11Priv)
+	hs, err := noise.NewHandshakeState(cfg)
+	if err != nil {
+		return nil, err
+	}
+	msg, _, _, err := hs.WriteMessage(nil, payload)
+	if err != nil {
+		return nil, err
+	}
+	return msgformat.AddRequestFormat(msg)
+}
+
+// c11EDNSEnum enumerates OPT RDATA around every boundary between "the last option fits" and "it does
+// not": 0-1 well-formed options in front, then either a last option with p bytes of data present
+// and an OPTION-LENGTH of p-1 .. p+6 or 0xffff, or 1-3 bytes of an option header.
+func c11EDNSEnum() [][]byte {
+	var out [][]byte
+	for _, front := range [][]byte{nil, c11h.EDNSOption(10, 8, []byte("verifck1"))} {
+		out = append(out, append([]byte(nil), front...))
+		for _, code := range []uint16{10, 12} {
+			for _, p := range []int{0, 1, 2, 3, 4, 5, 8} {
+				data := bytes.Repeat([]byte{0x11}, p)
+				for d := p - 1; d <= p+6; d++ {
+					if d >= 0 {
+						out = append(out, append(append([]byte(nil), front...), c11h.EDNSOption(code, d, data)...))
+					}
+				}
+				out = append(out, append(append([]byte(nil), front...), c11h.EDNSOption(code, 0xffff, data)...))
+			}
+		}
+		for n := 1; n <= 3; n++ {
+			out = append(out, append(append([]byte(nil), front...), []byte{0, 10, 0}[:n]...))
+		}
+	}
+	return out
+}
+
+const c11RespRule = "the responder's per-datagram path (parse -> responseFor -> unframe -> Noise handshake -> callback -> frame -> TXT answer -> size fallback) on: genuine encrypted queries for payloads of 0-90 bytes (intact, with DNS-level edits, with a corrupted Noise message or length prefix, for a foreign domain, with an OPT record as a resolver or an attacker would rewrite it: drawn payload size and version, RDATA drawn as a sequence of EDNS options whose last one fits, overruns the RDATA by 1..6 bytes or by a lot, or is cut inside its header; the same boundaries enumerated on a genuine query), datagrams assembled from hostile parts as in the dnsmsg sub-check (around a genuine or a garbage payload name), hostile constants; callback answers with 0..3000 bytes or an error; non-trivial = a datagram of at least a DNS header; distinct by case"
 
 func c11RespGen(rt *rapid.T, r *Responder) c11RespCase {
 	c := c11RespCase{Answer: rapid.SampledFrom([]int{20, 20, 0, 100, 900, 1100, 1200, 3000, -1}).Draw(rt, "answer")}
-	kind := rapid.SampledFrom([]string{"genuine", "genuine", "genuine-mutated", "bad-noise", "bad-frame", "foreign-domain", "parts", "parts", "parts-genuine-name"}).Draw(rt, "kind")
+	kind := rapid.SampledFrom([]string{"genuine", "genuine", "genuine-mutated", "bad-noise", "bad-frame", "foreign-domain", "parts", "parts", "parts-genuine-name", "genuine-edns", "genuine-edns"}).Draw(rt, "kind")
 	c.Kind = kind
 	payload := c11h.Bytes(rt, "payload", []int{0, 1, 30, 60, 90})
 	id := rapid.Uint16().Draw(rt, "id")
@@ -195,6 +280,13 @@ func c11RespGen(rt *rapid.T, r *Responder) c11RespCase {
 	case "foreign-domain":
 		other, _ := dns.ParseName("u.example.com")
 		c.Data, err = c11Query(payload, other, id)
+	case "genuine-edns":
+		var framed []byte
+		if framed, err = c11Framed(payload); err == nil {
+			size := rapid.SampledFrom([]uint16{4096, 4096, 4096, 1232, 1231, 512, 0, 0xffff}).Draw(rt, "optsize")
+			ttl := rapid.SampledFrom([]uint32{0, 0, 0, 0, 0x8000, 0x00010000, 0xff00ffff}).Draw(rt, "optttl")
+			c.Data, err = c11QueryOpt(framed, r.domain, id, size, ttl, c11h.EDNSOptions(rt, "opt"))
+		}
 	case "bad-noise":
 		// a well-framed message that is not a valid Noise handshake (too short, or garbage)
 		msg := c11h.Bytes(rt, "noise", []int{0, 1, 31, 32, 47, 48, 49, 80})
@@ -263,6 +355,17 @@ func c11RespSeeds(r *Responder) [][]any {
 	for _, b := range c11h.DNSHostileSeeds() {
 		out = append(out, []any{b, uint16(20)})
 	}
+	// what resolvers attach to the OPT record: cookie, cookie + padding, client subnet; and an option
+	// that does not fit
+	if framed, err := c11Framed([]byte("hello")); err == nil {
+		cookie := c11h.EDNSOption(10, 8, []byte("verifck1"))
+		for i, rd := range [][]byte{cookie, append(append([]byte(nil), cookie...), c11h.EDNSOption(12, 40, make([]byte, 40))...),
+			c11h.EDNSOption(8, 7, []byte{0, 1, 24, 0, 192, 0, 2}), c11h.EDNSOption(10, 24, []byte("verifck1")), append(append([]byte(nil), cookie...), 0, 12)} {
+			if q, err := c11QueryOpt(framed, r.domain, uint16(20+i), 1232, 0, rd); err == nil {
+				out = append(out, []any{q, uint16(20)})
+			}
+		}
+	}
 	return out
 }
 
@@ -287,9 +390,24 @@ func TestVerif_C11_responder(t *testing.T) {
 		return
 	}
 	rec.Require("stage:answered-payload", "stage:answered-error", "stage:no-response", "stage:unframe-rejected", "stage:handshake-or-callback-rejected",
-		"stage:answered-empty-too-large", "stage:answered-error+after-parse-error", "callback-called", "kind:parts", "kind:genuine-mutated")
+		"stage:answered-empty-too-large", "stage:answered-error+after-parse-error", "callback-called", "kind:parts", "kind:genuine-mutated", "kind:genuine-edns",
+		"edns:no-options", "edns:options-wellformed", "edns:options-wellformed+answered-payload", "edns:option-overruns-by-1..4", "edns:option-overruns-by-more", "edns:option-header-cut")
 	if err := c11h.WriteCorpus("FuzzVerif_C11_responder", c11RespSeeds(r)); err != nil {
 		t.Fatalf("harness problem: %v", err)
+	}
+	if framed, err := c11Framed([]byte("enumerated")); err != nil {
+		t.Fatalf("harness problem: %v", err)
+	} else {
+		for i, rd := range c11EDNSEnum() {
+			if !vh.Mine(i) {
+				continue
+			}
+			q, err := c11QueryOpt(framed, r.domain, uint16(i), 4096, 0, rd)
+			if err != nil {
+				t.Fatalf("harness problem: building the query: %v", err)
+			}
+			c11RespCheck(t, rec, r, c11RespCase{Data: q, Answer: 20, Kind: "enum-edns"}, false)
+		}
 	}
 	rapid.Check(t, func(rt *rapid.T) { c11RespCheck(rt, rec, r, c11RespGen(rt, r), false) })
 }
